@@ -110,7 +110,7 @@ namespace vf { void showValue(const Op &p, std::ostream &os) { os << kOpName[p.k
 int main(int argc, char **argv) {
     parse_args(argc, argv);
     Ctx &c = ctx();
-    c.cpu_budget_s = 120;
+    if(!c.kv.count("cpuset")) c.cpu_budget_s = c.opt("budget", 120);
     if(c.mode == "replay") return replay_main([](const std::string &s) { Info info; run(deser(s), info); });
     int maxlen = (int)c.opt("maxlen", 100);
     pbt("c06_allocation_relation", c.n, maxlen, [](const std::vector<Op> &raw) {
